@@ -48,6 +48,8 @@ MJoin(i, j, on, how, sfx) == [v |-> "join", i |-> i, j |-> j, on |-> on, how |->
 MCross(i, j, sfx)   == [v |-> "cross_join", i |-> i, j |-> j, suffix |-> sfx]
 MUnion(i, j, d)     == [v |-> "union", i |-> i, j |-> j, distinct |-> d]
 OnStr(n)            == [k |-> "str", n |-> n]
+MTransfer(i, j)     == [v |-> "transfer", i |-> i, j |-> j]
+MGetName(i, c)      == [v |-> "getname", i |-> i, c |-> c]        \* observation: tbl[ref].name
 
 (* visible columns of a given type, as a sequence in output order *)
 VisOfTy(t, ty) == SelectSeq(t.vis, LAMBDA c : t.ty[c] = ty)
